@@ -2,6 +2,7 @@ import PqV.Drv.Kern
 import PqV.Drv.Filter
 import PqV.Drv.Footer
 import PqV.Drv.Fs
+import PqV.Drv.Access
 /-
   `pqv` — line-protocol driver over the executable definitions of PqV (Spec, Impl, Gen).
   One request per line on stdin, one reply per line on stdout.  Pure per line.
@@ -20,6 +21,7 @@ def handleLine (line : String) : String :=
     | "footer" => handleFooter op a
     | "fs" => handleFs op a
     | "ds" => handleDs op a
+    | "access" => handleAccess op a
     | _ => s!"err unknown-stream {stream}"
   | _ => "err bad-request"
 
